@@ -55,6 +55,9 @@ structure DState where
   pendingLine : Nat := 0
   kctx : Option KCtx := none
   kprev : Option (Int × Int) := none
+  /-- the observations of the current kernel sequence, kept while it is short: the order clauses are
+  evaluated on every pair of a short sequence, not only on neighbouring lines -/
+  kall : Array (Int × Int) := #[]
   rtctx : Option RtCtx := none
   rtprev : Option (Int × Int) := none
   freq : Option FV := none
@@ -213,8 +216,11 @@ def kernelPreds (s : DState) (c : KCtx) (x y : Int) : DState := Id.run do
     if !Spec.C07.neighbourOK ss sb ds db x y then s := s.fail "C07" "neighbour" detail
     if !Spec.C07.sameDepthOK ss sb ds db x y then s := s.fail "C07" "sameDepth" detail
     if !(Spec.loCode ds db ≤ y && y ≤ Spec.hiCode ds db) then s := s.fail "C06" "range" detail
-    if let some (px, py) := s.kprev then
-      if !Spec.C06.orderOK px x py y then s := s.fail "C06" "order" (detail ++ s!" px={px} py={py}")
+    -- the order clause is checked in both directions (lines need not be sorted), against the previous
+    -- line and against every line of a short sequence
+    for (px, py) in ((if s.kall.size < 40 then s.kall.toList else []) ++ s.kprev.toList) do
+      if !Spec.C06.orderOK px x py y || !Spec.C06.orderOK x px y py then
+        s := s.fail "C06" "order" (detail ++ s!" px={px} py={py}")
   | .floatAsSigned | .floatAsUnsigned =>
     let f := fvOfCell c.sk x
     if f != .nan then
@@ -222,16 +228,21 @@ def kernelPreds (s : DState) (c : KCtx) (x y : Int) : DState := Id.run do
       if !Spec.C08.clipOK ds db f y then s := s.fail "C08" "clip" detail
       if !Spec.C08.zeroOK ds db f y then s := s.fail "C08" "zero" detail
       if !Spec.C08.oneStepOK ds db f y then s := s.fail "C08" "oneStep" detail
-      if let some (px, py) := s.kprev then
-        if !Spec.C08.monoOK (fvOfCell c.sk px) f py y then s := s.fail "C08" "mono" (detail ++ s!" px={px} py={py}")
+      for (px, py) in ((if s.kall.size < 40 then s.kall.toList else []) ++ s.kprev.toList) do
+        if fvOfCell c.sk px != .nan then
+          if !Spec.C08.monoOK (fvOfCell c.sk px) f py y || !Spec.C08.monoOK f (fvOfCell c.sk px) y py then
+            s := s.fail "C08" "mono" (detail ++ s!" px={px} py={py}")
   | .signedAsFloat | .unsignedAsFloat =>
     let r := fvOfCell c.dk y
     if !Spec.C09.rangeOK r then s := s.fail "C09" "range" detail
     if !Spec.C09.endpointsOK ss sb x r then s := s.fail "C09" "endpoints" detail
     if !Spec.C09.oneStepOK c.dk.fmt ss sb x r then s := s.fail "C09" "oneStep" detail
+    for (px, py) in ((if s.kall.size < 40 then s.kall.toList else []) ++ s.kprev.toList) do
+      let pr := fvOfCell c.dk py
+      if !Spec.C09.monoOK px x pr r || !Spec.C09.monoOK x px r pr then
+        s := s.fail "C09" "mono" (detail ++ s!" px={px} py={py}")
     if let some (px, py) := s.kprev then
       let pr := fvOfCell c.dk py
-      if !Spec.C09.monoOK px x pr r then s := s.fail "C09" "mono" (detail ++ s!" px={px} py={py}")
       if c.dk == .f64 && sb ≤ 32 then
         if !Spec.C09.injOK px x pr r then s := s.fail "C09" "inj" (detail ++ s!" px={px} py={py}")
   | .floatAsFloat =>
@@ -568,12 +579,12 @@ def stepLine (s : DState) (line : String) : DState :=
     let s := finalizePending s
     { s with heap := [], bufs := #[], pools := #[], dead := false, pre := #[], post := #[], seen := #[], implOut := #[], ikind := #[], ipools := #[], pm := none, obsOff := false,
              caseNo := nat! (t[1]?.getD "0"), caseLabel := " ".intercalate (t.toList.drop 2),
-             kctx := none, kprev := none, rtctx := none }
+             kctx := none, kprev := none, kall := #[], rtctx := none }
   -- ---------- stateless lines ----------
   else if cmd == "kseq" then
     let s := finalizePending s
     match ConvFn.ofString? (t[1]?.getD ""), Kind.ofString? (t[2]?.getD ""), Kind.ofString? (t[3]?.getD "") with
-    | some f, some a, some b => { s with kctx := some ⟨f, t[1]!, a, b⟩, kprev := none }
+    | some f, some a, some b => { s with kctx := some ⟨f, t[1]!, a, b⟩, kprev := none, kall := #[] }
     | _, _, _ => s.divergeK "kseq-parse" "-" line
   else if cmd == "k" then
     match s.kctx with
@@ -586,13 +597,25 @@ def stepLine (s : DState) (line : String) : DState :=
         | some m => if m == y then s else
             s.divergeK s!"kernel {c.fnName} {c.sk.toString}>{c.dk.toString} x={x}" (toString m) (toString y)
       let s := kernelPreds s c x y
-      { s with kprev := some (x, y) }
+      -- (the previous line moves into the short-sequence memory, up to 40 observations)
+      { s with kprev := some (x, y),
+               kall := match s.kprev with
+                 | some p => if s.kall.size < 40 then s.kall.push p else s.kall
+                 | none => s.kall }
   else if cmd == "callerspare" then
     -- a reader / writer touched the caller's backing array beyond the slice it was given
     let s := finalizePending s
     let detail := s!"op={t[1]?.getD ""} view={t[2]?.getD ""}"
     let s := { s with nPred := s.nPred + 1 }
     (s.fail "C01" "caller-backing-array-untouched" detail).fail "C15" "caller-backing-array-untouched" detail
+  else if cmd == "goref" then
+    -- an operation on buffers too large for a transcript, judged natively against plain Go slices
+    let s := finalizePending s
+    let s := { s with nKern := s.nKern + 1, nPred := s.nPred + 1 }
+    if t[3]? == some "ok" then s
+    else
+      let detail := " ".intercalate (t.toList.drop 3)
+      ((t[1]?.getD "").splitOn ",").foldl (fun s p => s.fail p (t[2]?.getD "goref") detail) s
   else if cmd == "gencrash" then
     -- the harness generator itself failed on a state the implementation produced (it relies on what
     -- the properties promise); everything up to here has been judged line by line
